@@ -365,6 +365,46 @@ pub fn run_c07<C: NatCtx>(v: &mut Env<C>) {
             let truef = gr.modpow(&x, &p);
             v.h.check(!(acc && strict && f_wrong != truef), || format!("a wrong decryption factor with cancelling equation errors was accepted on {}", tok));
         }
+        // adaptive forgeries of a WRONG factor that succeed exactly when one part of the statement does not
+        // enter the challenge hash: solve one verification equation for the unbound part AFTER the challenge
+        {
+            let (x, yy, r0) = (v.rnd_exp(), v.rnd_exp(), v.rnd_exp());
+            let pkx = g.modpow(&x, &p);
+            let gr = v.rnd_member();
+            let mhr = v.rnd_member();
+            let truef = gr.modpow(&x, &p);
+            let inv = |a: &BigUint| a.modpow(&(&q - 1u32), &p); // a^(q-1) = a^-1 on the order-q subgroup
+            let neg = |c: &BigUint| (&q - (c % &q)) % &q;
+            // (a) commitment1 chosen after the challenge: proof for exponent yy, factor gr^yy
+            let f_a = gr.modpow(&yy, &p);
+            let t2 = gr.modpow(&r0, &p);
+            let dummy = v.rnd_member();
+            let c = C::x_val(&zv::cp_challenge(&zkp, &v.e(&g), &v.e(&gr), &v.e(&pkx), &v.e(&f_a), &v.e(&dummy), &v.e(&t2), Some(&v.e(&mhr)), &label).unwrap());
+            let s = (&r0 + &c * &yy) % &q;
+            let t1 = (g.modpow(&s, &p) * pkx.modpow(&neg(&c), &p)) % &p;
+            let acc = dverify_case(v, &pkx, &f_a, &mhr, &gr, &t1, &t2, &c, &s, &label);
+            v.h.check(!(acc && strict && f_a != truef), || format!("a wrong decryption factor was accepted with a first commitment computed after the challenge on {} (pk={:x} gr={:x} factor={:x} true factor={:x})", tok, pkx, gr, f_a, truef));
+            // (b) commitment2 chosen after the challenge: proof for the true x, arbitrary wrong factor
+            let f_b = (&truef * &g) % &p;
+            let t1 = g.modpow(&r0, &p);
+            let c = C::x_val(&zv::cp_challenge(&zkp, &v.e(&g), &v.e(&gr), &v.e(&pkx), &v.e(&f_b), &v.e(&t1), &v.e(&dummy), Some(&v.e(&mhr)), &label).unwrap());
+            let s = (&r0 + &c * &x) % &q;
+            let t2 = (gr.modpow(&s, &p) * f_b.modpow(&neg(&c), &p)) % &p;
+            let acc = dverify_case(v, &pkx, &f_b, &mhr, &gr, &t1, &t2, &c, &s, &label);
+            v.h.check(!(acc && strict), || format!("a wrong decryption factor was accepted with a second commitment computed after the challenge on {} (pk={:x} gr={:x} factor={:x} true factor={:x})", tok, pkx, gr, f_b, truef));
+            // (c) the factor itself chosen after the challenge (it would have to be unbound): honest first equation,
+            // arbitrary second commitment, factor := (gr^s / t2)^(1/c)
+            let t1 = g.modpow(&r0, &p);
+            let t2 = v.rnd_member();
+            let c = C::x_val(&zv::cp_challenge(&zkp, &v.e(&g), &v.e(&gr), &v.e(&pkx), &v.e(&dummy), &v.e(&t1), &v.e(&t2), Some(&v.e(&mhr)), &label).unwrap());
+            if c != big(0) {
+                let s = (&r0 + &c * &x) % &q;
+                let cinv = c.modpow(&(&q - 2u32), &q);
+                let f_c = ((gr.modpow(&s, &p) * inv(&t2)) % &p).modpow(&cinv, &p);
+                let acc = dverify_case(v, &pkx, &f_c, &mhr, &gr, &t1, &t2, &c, &s, &label);
+                v.h.check(!(acc && strict && f_c != truef), || format!("a wrong decryption factor computed after the challenge was accepted on {} (pk={:x} gr={:x} factor={:x} true factor={:x})", tok, pkx, gr, f_c, truef));
+            }
+        }
         let sk = if i == 0 { big(0) } else if i == 1 { &q - 1u32 } else { v.rnd_exp() };
         let key = PrivateKey::from(&v.x(&sk), &ctx);
         let pkv = C::e_val(key.pk_element());
